@@ -166,6 +166,48 @@ def matrix_jobs(rng, n_bin, n_cls):
     return jobs
 
 
+def low_neginf_jobs(rng, every):
+    """Arrays - and single Dask blocks - that hold a -inf cell, NO NaN, and whose finite cells all lie in the first
+    class: the -inf cell must still come out NaN.  reclassify (NumPy and one-row Dask blocks) with all values <=
+    bins[0]; quantile / natural_breaks on a constant raster; equal_interval / reclassify on Dask with chunks (1, W)
+    where the first row holds the lowest values and the -inf."""
+    jobs = []
+    for q, b in enumerate(bin_lists(6, 5)):
+        if q % every:
+            continue
+        b0 = 2 * b[0]
+        low = [v for v in (b0, b0 - 1, b0 - 2, b0 - 3) if v >= -1] or [b0]
+        vals2 = [low[i % len(low)] for i in range(7)] + [NINF]
+        rng.shuffle(vals2)
+        dask_too = (q // every) % 6 == 0                  # Dask compute is ~20 ms per call: a sixth of the lists
+        for shape, chunks in (([1, 8], None), ([2, 4], None), ([4, 2], [1, 2])):
+            if chunks and not dask_too:
+                continue
+            jobs.append({"kind": "bin", "bins": b, "vals2": vals2, "shape": shape, "chunks": chunks,
+                         "dtype": rng.choice(["float64", "float32"]), "layout": rng.choice(["C", "F"]) if not chunks else "C",
+                         "bins_float": rng.random() < 0.5, "trace": False, "tag": "bins_all_low_with_neginf"})
+        # Dask, one block per row: the first row lies in the first bin and holds the -inf, later rows do not
+        if not dask_too:
+            continue
+        hi = [2 * x for x in b] + [2 * b[-1] + 1]
+        row2 = [hi[i % len(hi)] for i in range(4)]
+        jobs.append({"kind": "bin", "bins": b, "vals2": [low[0], NINF, low[-1], low[0]] + row2, "shape": [2, 4],
+                     "chunks": [1, 4], "dtype": "float64", "trace": False, "tag": "bins_dask_rows_low_with_neginf"})
+    for c in range(0, 4):
+        for k in (2, 3):
+            for func in ("quantile", "natural_breaks"):          # constant raster + -inf (equal_interval: zero width)
+                vals = [c, c, NINF, c, c, c]
+                jobs.append({"kind": "classes", "func": func, "k": k, "vals": vals, "shape": [2, 3], "dtype": "float64",
+                             "layout": rng.choice(["C", "F"]), "off": 0, "unit": 1, "tag": "constant_with_neginf"})
+    for W in (4, 6):
+        for k in (3, 4):
+            vals = list(range(W * W))
+            vals[rng.randrange(1, W)] = NINF                     # in the first row = the lowest values
+            jobs.append({"kind": "classes", "func": "equal_interval", "k": k, "vals": vals, "shape": [W, W],
+                         "dtype": "float64", "chunks": [1, W], "off": 0, "unit": 1, "tag": "dask_rows_equal_interval_neginf"})
+    return jobs
+
+
 def special_jobs(rng, reps):
     """Values at the edges of the raster dtype."""
     jobs = []
@@ -450,13 +492,14 @@ def run(ctx):
     jms = multiset_jobs(rng, nmax, vmax)
     jrnd = random_jobs(rng, ctx.pick(1200, 12000))
     jrnd += matrix_jobs(rng, ctx.pick(120, 1200), ctx.pick(120, 1200)) + special_jobs(rng, ctx.pick(2, 20))
+    jrnd += low_neginf_jobs(rng, ctx.pick(6, 1))
     # each worker process pays ~5 CPU-s import + JIT: few processes in the quick tier
-    allc = core.run_jobs("classify_worker", jb + jbin + jms + jrnd, nproc=ctx.pick(4, 16))
+    allc = core.run_jobs("classify_worker", jb + jbin + jms + jrnd, nproc=ctx.pick(3, 16))
     compiled = allc[:len(jb)]
     cbin = allc[len(jb):len(jb) + len(jbin)]
     cms = allc[len(jb) + len(jbin):len(jb) + len(jbin) + len(jms)]
     crnd = allc[len(jb) + len(jbin) + len(jms):]
-    interp = core.run_jobs("classify_worker", jb, nproc=ctx.pick(3, 8), env={"NUMBA_DISABLE_JIT": "1"})
+    interp = core.run_jobs("classify_worker", jb, nproc=ctx.pick(2, 8), env={"NUMBA_DISABLE_JIT": "1"})
 
     # ------------------------------------------------------------------ R: the complete bin / value space
     mism = 0
